@@ -14,8 +14,9 @@
   `store_object(pid, data)` returns normally, then `retrieve_object(pid)` returns
   the data (`never_wedged_after_a_crash`; this rests on `recover_any`, which holds
   from *any* store whose list texts are empty or newline-terminated — no
-  consistency assumed). Not proved: the same under a fault plan that stays active
-  during the recovery, and with validation arguments on the recovery store.
+  consistency assumed; `…_with_validation`: the recovery store may carry any accepted
+  validation arguments that the data meets). Not proved: the same under a fault plan
+  that stays active during the recovery.
 -/
 import HSModel.Proofs.Shape
 import HSModel.Proofs.RunInv
@@ -268,5 +269,51 @@ theorem never_wedged_after_a_crash (c : Call) (st : Store) (log log' : List Eff)
       rw [h0]; exact allNl_of_exact o h
     · exact trail_nl cfg o c st log h ho hc _ h0
   exact recover_any cfg o S log' p t' hp ho.okDigests hnl hfree
+
+/-- … and with validation arguments on the recovery store: whatever additional
+    algorithm, checksum, checksum algorithm and expected size it is given, as long
+    as they pass the argument checks and the verdict on the data is "valid" -/
+theorem recovery_from_any_store_with_validation (S : Store) (log : List Eff) (p : Str) (t' : Tok)
+    (add cks ca : SArg) (sz : IArg) (add' cs' : Option Str) (hp : checkStringOk p = true) (hok : OkDigests o)
+    (hint : checkInteger sz = .ok ()) (hac : checkArgAlgorithmsAndChecksum cfg.alg add cks ca = .ok (add', cs'))
+    (hv : (verdict ((refineAlgorithmList defaultAlgos add' cs').map fun a => (a, o.dig a t')) (fun a => o.dig a t')
+      (o.size t') sz (strArg cks) cs').exc = none)
+    (hnl : AllNl S.cidRefs)
+    (hfree : S.objs.get (o.dig cfg.alg t') = none ∨ S.objs.get (o.dig cfg.alg t') = some t') :
+    ∃ r1 w1 m w2, (deleteObject cfg o (.str p)).run (calm S log) = (r1, w1) ∧
+      (r1 = .ok .unit ∨ r1 = .error .pidRefsDoesNotExist) ∧
+      (storeObject cfg o (.str p) (.ok t') add cks ca sz).run w1 = (.ok (.objMeta m), w2) ∧
+      ((retrieveObject cfg o (.str p)).run w2).1 = .ok (.content t') :=
+  recover_any_args cfg o S log p t' add cks ca sz add' cs' hp hok hint hac hv hnl hfree
+
+/-- **never wedged, validated recovery**: as `never_wedged_after_a_crash`, the
+    recovery store carrying any accepted validation arguments that the data meets -/
+theorem never_wedged_after_a_crash_with_validation (c : Call) (st : Store) (log log' : List Eff) (n : Nat) (p : Str)
+    (t' : Tok) (add cks ca : SArg) (sz : IArg) (add' cs' : Option Str)
+    (h : RefsExact o st) (ho : GoodOracle o) (hp : checkStringOk p = true)
+    (hc : (∃ a b d e f g, c = .storeObject a b d e f g) ∨ (∃ a b, c = .tagObject a b) ∨ (∃ a, c = .deleteObject a) ∨
+          (∃ a b d, c = .storeMetadata a b d) ∨ (∃ a b, c = .deleteMetadata a b))
+    (hint : checkInteger sz = .ok ()) (hac : checkArgAlgorithmsAndChecksum cfg.alg add cks ca = .ok (add', cs'))
+    (hv : (verdict ((refineAlgorithmList defaultAlgos add' cs').map fun a => (a, o.dig a t')) (fun a => o.dig a t')
+      (o.size t') sz (strArg cks) cs').exc = none)
+    (hfree : let S := (Prog.crashAt n (c.prog cfg o) (calm st log)).2.st
+             S.objs.get (o.dig cfg.alg t') = none ∨ S.objs.get (o.dig cfg.alg t') = some t') :
+    let S := (Prog.crashAt n (c.prog cfg o) (calm st log)).2.st
+    ∃ r1 w1 m w2, (deleteObject cfg o (.str p)).run (calm S log') = (r1, w1) ∧
+      (r1 = .ok .unit ∨ r1 = .error .pidRefsDoesNotExist) ∧
+      (storeObject cfg o (.str p) (.ok t') add cks ca sz).run w1 = (.ok (.objMeta m), w2) ∧
+      ((retrieveObject cfg o (.str p)).run w2).1 = .ok (.content t') := by
+  intro S
+  have hnl : AllNl S.cidRefs := by
+    rcases Prog.crashAt_in_trail (c.prog cfg o) n (calm st log) with h0 | h0
+    · show AllNl (Prog.crashAt n (c.prog cfg o) (calm st log)).2.st.cidRefs
+      rw [h0]; exact allNl_of_exact o h
+    · exact trail_nl cfg o c st log h ho hc _ h0
+  exact recover_any_args cfg o S log' p t' add cks ca sz add' cs' hp ho.okDigests hint hac hv hnl hfree
+
+/-- the argument hypothesis is satisfiable (a test on literals): an additional md5, an
+    upper-case checksum with its algorithm in DataONE spelling -/
+example : checkArgAlgorithmsAndChecksum "sha256".toList (.str "MD5".toList) (.str "AAA0".toList) (.str "SHA-384".toList)
+    = .ok (some "md5".toList, some "sha384".toList) := by decide
 
 end HS.C10
